@@ -141,10 +141,92 @@ Proof.
 Qed.
 
 Lemma noerr_dims_are_subset ds n d p : internal ds n = true -> noerr (dims_are_subset ds n d p).
+Proof. intros _. unfold dims_are_subset. auto with c13. Qed.
+
+Local Opaque dims_are_subset.
+
+(* ------------------------------------------------------------------ dimensions of the file *)
+(* a netCDF variable spans dimensions of its file *)
+Definition in_dims (ds : ads) (l : list string) : Prop := Forall (fun x => mem x (a_dims ds) = true) l.
+Definition wf_dims (ds : ads) : Prop := forall v, In v (a_vars ds) -> in_dims ds (v_dims v).
+
+Lemma find_var_In vs n v : find_var vs n = Some v -> In v vs.
 Proof.
-  intros H. unfold dims_are_subset. destruct (subset d p); auto with c13.
-  destruct (internal_get_var ds n H) as [v Hv]. rewrite Hv. simpl. auto with c13.
+  induction vs as [|x r IH]; simpl; [discriminate|].
+  destruct (String.eqb (v_name x) n); [intros H; inversion H; auto|auto].
 Qed.
+
+Lemma Forall_removelast {A} (P : A -> Prop) l : Forall P l -> Forall P (removelast l).
+Proof.
+  induction 1 as [|x l Hx Hl IH]; simpl; [constructor|]. destruct l; [constructor|]. constructor; assumption.
+Qed.
+
+Lemma assoc_In {A} k (l : list (string * A)) x : assoc k l = Some x -> exists k', In (k', x) l.
+Proof.
+  induction l as [|[k' y] r IH]; simpl; [discriminate|].
+  destruct (String.eqb k k'). { intros H; inversion H; subst. eauto. }
+  intros H. destruct (IH H) as [k2 Hk]. eauto.
+Qed.
+
+(* _check_compress says True exactly when EVERY name is a dimension of the file *)
+Lemma check_compress_list_sound dims parsed :
+  fst (check_compress_list dims parsed) = true <-> forallb (fun d => mem d dims) parsed = true.
+Proof.
+  induction parsed as [|d r IH]; simpl; [tauto|].
+  destruct (check_compress_list dims r) as [ok k]. simpl in IH. unfold mem at 1.
+  destruct (existsb (String.eqb d) dims); simpl; [exact IH|]. split; discriminate.
+Qed.
+
+Lemma check_compress_sound dims parsed :
+  fst (check_compress dims parsed) = true <->
+  parsed <> [] /\ forall d, In d parsed -> mem d dims = true.
+Proof.
+  unfold check_compress. destruct parsed as [|x r].
+  - simpl. split; [discriminate|intros [H _]; congruence].
+  - rewrite check_compress_list_sound, forallb_forall. split.
+    + intros H. split; [discriminate|exact H].
+    + intros [_ H]. exact H.
+Qed.
+
+(* the seeded variant accepts a missing dimension in any position but the last *)
+Lemma check_compress_seeded_refuted :
+  check_compress_seeded ["lat"; "lon"] ["nope"; "lon"] true = true /\
+  fst (check_compress ["lat"; "lon"] ["nope"; "lon"]) = false.
+Proof. split; vm_compute; reflexivity. Qed.
+
+Lemma gathered_in_dims ds k imp : In (k, imp) (gathered ds) -> in_dims ds imp.
+Proof.
+  unfold gathered. rewrite in_flat_map. intros [v [_ H]].
+  destruct (compress_of v) as [c|]; [|destruct H].
+  destruct (fst (check_compress (a_dims ds) (split_ws c))) eqn:E; [|destruct H].
+  destruct H as [H|[]]. inversion H; subst.
+  apply check_compress_sound in E. destruct E as [_ E]. apply Forall_forall. exact E.
+Qed.
+
+Lemma expand_in_dims ds g : (forall k imp, In (k, imp) g -> in_dims ds imp) ->
+  forall dims, in_dims ds dims -> in_dims ds (expand g dims).
+Proof.
+  intros Hg. induction dims as [|d r IH]; simpl; intros H; [constructor|].
+  inversion H; subst. destruct (assoc d g) as [imp|] eqn:E.
+  - destruct (assoc_In _ _ _ E) as [k Hk]. apply Forall_app. split; [eapply Hg; eauto|assumption].
+  - constructor; [assumption|apply IH; assumption].
+Qed.
+
+Lemma ncdims_in_dims ds n d : wf_dims ds -> ncdims ds n = ROk d -> in_dims ds d.
+Proof.
+  intros Hwf. unfold ncdims, get_var. destruct (find_var (a_vars ds) n) as [v|] eqn:E; simpl; [|discriminate].
+  intros H; inversion H; subst. apply expand_in_dims. { intros k imp. apply gathered_in_dims. }
+  pose proof (Hwf v (find_var_In _ _ _ E)) as Hv.
+  destruct (v_char v && negb (Nat.eqb (length (v_dims v)) 0)); [apply Forall_removelast|]; exact Hv.
+Qed.
+
+(* with the seeded _check_compress the bogus dimension reaches the creation of the domain axes:
+   KeyError, as observed *)
+Lemma seeded_compress_raises :
+  let ds := mkAds3 [mkVar "gq" ["landpoint"] false false []] [] ["lat"; "lon"; "landpoint"] in
+  dim_pass ds (expand [("landpoint", ["nope"; "lon"])] ["landpoint"]) = RErr KeyErr.
+Proof. vm_compute. reflexivity. Qed.
+
 
 Lemma find_var_in vs v : In v vs -> exists w, find_var vs (v_name v) = Some w.
 Proof.
@@ -372,13 +454,15 @@ Qed.
 Lemma coordinate_variable_internal ds d : coordinate_variable ds d = true -> internal ds d = true.
 Proof. unfold coordinate_variable, internal. destruct (find_var (a_vars ds) d); [reflexivity|discriminate]. Qed.
 
-Lemma noerr_dim_pass ds dims : noerr (dim_pass ds dims).
+Lemma noerr_dim_pass ds dims : in_dims ds dims -> noerr (dim_pass ds dims).
 Proof.
-  induction dims as [|d r IH]; simpl; auto with c13.
+  induction dims as [|d r IH]; simpl; intros H; auto with c13.
+  inversion H; subst.
   apply noerr_bind; auto. intros rest _.
-  destruct (coordinate_variable ds d) eqn:E; auto with c13.
-  apply noerr_bind. { apply noerr_create_bounded, coordinate_variable_internal, E. }
-  intros cm _. auto with c13.
+  destruct (coordinate_variable ds d) eqn:E.
+  - apply noerr_bind. { apply noerr_create_bounded, coordinate_variable_internal, E. }
+    intros cm _. auto with c13.
+  - rewrite H2. auto with c13.
 Qed.
 
 Lemma dim_pass_internal ds dims : forall cs ms,
@@ -391,7 +475,7 @@ Proof.
     inversion H; subst. constructor; [|eapply IH; eauto].
     apply create_bounded_name in E1. destruct E1 as [-> _]. simpl.
     apply coordinate_variable_internal, E.
-  - inversion H; subst. eapply IH; eauto.
+  - destruct (mem d (a_dims ds)); [|discriminate]. inversion H; subst. eapply IH; eauto.
 Qed.
 
 (* ------------------------------------------------------------------ formula terms *)
@@ -970,12 +1054,12 @@ Proof.
 Qed.
 
 (* _create_field_or_domain with the repairs never raises, for any variable of any dataset *)
-Lemma field_skel_total_internal ds v : internal ds (v_name v) = true -> noerr (field_skel false ds v).
+Lemma field_skel_total_internal ds v : wf_dims ds -> internal ds (v_name v) = true -> noerr (field_skel false ds v).
 Proof.
-  intros Hf. unfold field_skel.
+  intros Hwf Hf. unfold field_skel.
   destruct (attr v "dimensions"); auto with c13.
-  destruct (internal_ncdims ds (v_name v) Hf) as [fdims ->]. simpl.
-  apply noerr_bind. { apply noerr_dim_pass. }
+  destruct (internal_ncdims ds (v_name v) Hf) as [fdims Efd]. rewrite Efd. simpl.
+  apply noerr_bind. { apply noerr_dim_pass. eapply ncdims_in_dims; eauto. }
   intros [dc dm] Ed. apply noerr_bind.
   { apply noerr_opt_pass. intros s. apply noerr_aux_pass. }
   intros [ac am] Ea. simpl.
@@ -988,8 +1072,8 @@ Proof.
   intros [[[[cons crefs] meths] ms] refs] _. auto with c13.
 Qed.
 
-Lemma field_skel_total ds v : In v (a_vars ds) -> noerr (field_skel false ds v).
-Proof. intros Hin. apply field_skel_total_internal, in_internal, Hin. Qed.
+Lemma field_skel_total ds v : wf_dims ds -> In v (a_vars ds) -> noerr (field_skel false ds v).
+Proof. intros Hwf Hin. apply field_skel_total_internal; [assumption|apply in_internal, Hin]. Qed.
 
 (* the lookups of read are made in norm ds: the same variables, each with the attributes
    that are read through a reference *)
@@ -1002,20 +1086,30 @@ Qed.
 Lemma internal_norm ds n : internal (norm ds) n = internal ds n.
 Proof. unfold internal, norm; simpl. rewrite find_var_strip. destruct (find_var (a_vars ds) n); reflexivity. Qed.
 
-Lemma all_fields_total ds vs : (forall v, In v vs -> internal ds (v_name v) = true) -> noerr (all_fields false ds vs).
+Lemma all_fields_total ds vs : wf_dims ds ->
+  (forall v, In v vs -> internal ds (v_name v) = true) -> noerr (all_fields false ds vs).
 Proof.
-  induction vs as [|v r IH]; simpl; intros H; auto with c13.
-  apply noerr_bind. { apply field_skel_total_internal. apply H. left; reflexivity. }
-  intros o _. apply noerr_bind. { apply IH. intros w Hw. apply H. right; assumption. }
+  intros Hwf. induction vs as [|v r IH]; simpl; intros H; auto with c13.
+  assert (Hr : noerr (all_fields false ds r)) by (apply IH; intros w Hw; apply H; right; assumption).
+  destruct (compress_of v); [exact Hr|].
+  apply noerr_bind. { apply field_skel_total_internal; [assumption|]. apply H. left; reflexivity. }
+  intros o _. apply noerr_bind. { exact Hr. }
   intros rest _. auto with c13.
+Qed.
+
+Lemma wf_dims_norm ds : wf_dims ds -> wf_dims (norm ds).
+Proof.
+  intros H v Hv. unfold norm in Hv; simpl in Hv. apply in_map_iff in Hv. destruct Hv as [w [<- Hw]].
+  exact (H w Hw).
 Qed.
 
 (* cfdm.read with the repairs does not raise, for EVERY dataset of the fragment:
    every partial lookup of the model is guarded *)
-Lemma read_total ds : noerr (read_skel ds).
+Lemma read_total ds : wf_dims ds -> noerr (read_skel ds).
 Proof.
-  unfold read_skel, read_skel_gen. apply noerr_bind.
-  - apply all_fields_total. intros v Hv. rewrite internal_norm. apply in_internal, Hv.
+  intros Hwf. unfold read_skel, read_skel_gen. apply noerr_bind.
+  - apply all_fields_total. { apply wf_dims_norm, Hwf. }
+    intros v Hv. rewrite internal_norm. apply in_internal, Hv.
   - intros fs _. auto with c13.
 Qed.
 
@@ -1057,6 +1151,14 @@ Proof.
   intros Hne. unfold attr, set_attr; simpl. destruct val; simpl; [rewrite Hne|]; apply assoc_remove_key; assumption.
 Qed.
 
+Lemma compress_of_set_attr a val v : String.eqb "compress" a = false -> compress_of (set_attr a val v) = compress_of v.
+Proof.
+  intros H. unfold compress_of.
+  change (v_dims (set_attr a val v)) with (v_dims v). change (v_name (set_attr a val v)) with (v_name v).
+  change (assoc "compress" (v_attrs (set_attr a val v))) with (attr (set_attr a val v) "compress").
+  rewrite attr_set_attr_other by assumption. reflexivity.
+Qed.
+
 Lemma attr_set_attr_same a s v : attr (set_attr a (Some s) v) a = Some s.
 Proof. unfold attr, set_attr; simpl. rewrite String.eqb_refl. reflexivity. Qed.
 
@@ -1085,7 +1187,7 @@ Definition upd (vn a : string) (val : option string) (v : var) : var :=
 
 (* if the field made from the edited variable is related by R in the two edits, the
    lists of all fields are related: R at that variable, equal elsewhere *)
-Lemma all_fields_rel nds vn a val1 val2 (R : fskel -> fskel -> Prop) : forall vs,
+Lemma all_fields_rel nds vn a val1 val2 (R : fskel -> fskel -> Prop) (Hla : String.eqb "compress" a = false) : forall vs,
   (forall v, In v vs -> v_name v = vn ->
      res_rel (opt_rel R) (field_skel false nds (set_attr a val1 v)) (field_skel false nds (set_attr a val2 v))) ->
   res_rel (Forall2 (fun f f' => R f f' \/ f = f'))
@@ -1093,6 +1195,10 @@ Lemma all_fields_rel nds vn a val1 val2 (R : fskel -> fskel -> Prop) : forall vs
 Proof.
   induction vs as [|v r IH]; intros H; simpl; [constructor|].
   assert (IH' := IH (fun w Hw => H w (or_intror Hw))). clear IH.
+  assert (Hc : forall val, compress_of (upd vn a val v) = compress_of v).
+  { intros val. unfold upd. destruct (String.eqb (v_name v) vn); [|reflexivity].
+    apply compress_of_set_attr; assumption. }
+  rewrite !Hc. destruct (compress_of v). { exact IH'. }
   unfold upd at 1 3. destruct (String.eqb (v_name v) vn) eqn:E.
   - apply String.eqb_eq in E. pose proof (H v (or_introl eq_refl) E) as Hv.
     destruct (field_skel false nds (set_attr a val1 v)) as [o| |],
@@ -1214,7 +1320,7 @@ Lemma read_coordinates_single_fault ds vn l1 bad l2 s s' rep :
 Proof.
   intros Hs' Hs Hbad. unfold read_skel, read_skel_gen.
   rewrite !norm_edit by reflexivity. unfold edit; simpl.
-  pose proof (all_fields_rel (norm ds) vn "coordinates" (Some s') (Some s) (fault_rel rep) (a_vars ds)) as H.
+  pose proof (all_fields_rel (norm ds) vn "coordinates" (Some s') (Some s) (fault_rel rep) eq_refl (a_vars ds)) as H.
   unfold upd in H.
   match type of H with ?P -> _ => assert (HP : P) end.
   { intros v _ Hn. apply field_skel_coordinates_fault with (l1 := l1) (bad := bad) (l2 := l2); auto.
@@ -1337,3 +1443,187 @@ Lemma read_coordinates_single_fault_example :
     = ["other"; "q"].
 Proof. cbv zeta. splits; vm_compute; reflexivity. Qed.
 
+
+(* ------------------------------------------------------------------ open / close with external files *)
+Lemma count_ev_cons p e l : count_ev p (e :: l) = ((if p e then 1 else 0) + count_ev p l)%nat.
+Proof. unfold count_ev. simpl. destruct (p e); reflexivity. Qed.
+
+Lemma count_ev_rev p l : count_ev p (rev l) = count_ev p l.
+Proof.
+  induction l as [|e r IH]; simpl; [reflexivity|].
+  rewrite count_ev_app, IH. rewrite (count_ev_cons p e r), (count_ev_cons p e []).
+  change (count_ev p []) with 0%nat. lia.
+Qed.
+
+Lemma count_occ_snoc l j i :
+  count_occ Nat.eq_dec (l ++ [j]) i = (count_occ Nat.eq_dec l i + if Nat.eqb i j then 1 else 0)%nat.
+Proof.
+  rewrite count_occ_app. simpl. destruct (Nat.eq_dec j i) as [->|N].
+  - rewrite Nat.eqb_refl. reflexivity.
+  - destruct (Nat.eqb i j) eqn:E; [apply Nat.eqb_eq in E; congruence|reflexivity].
+Qed.
+
+(* every dataset that has been opened and not yet closed is in the list file_close will use *)
+Definition xbal (st : xstate) : Prop :=
+  forall i, count_ev (is_open i) (x_ev st) =
+            (count_ev (is_close i) (x_ev st) + count_occ Nat.eq_dec (x_cur st) i)%nat.
+
+Lemma xbal_open st j : xbal st -> xbal (mkX (x_cur st ++ [j]) (EvOpen j :: x_ev st)).
+Proof.
+  intros H i. simpl. rewrite !count_ev_cons, count_occ_snoc, (H i). simpl. lia.
+Qed.
+
+Lemma xrun_fixed_bal : forall steps st, xbal st -> xbal (fst (xrun VFixed steps st)).
+Proof.
+  induction steps as [|x r IH]; intros st H; simpl; [exact H|].
+  destruct x as [j| |j [useful| |]].
+  - apply IH, xbal_open, H.
+  - apply IH, H.
+  - destruct useful; apply IH, xbal_open, H.
+  - simpl. exact H.
+  - simpl. intros i. simpl. rewrite !count_ev_cons, (H i). simpl. lia.
+Qed.
+
+Lemma close_all_closed st : xbal st ->
+  forall i, count_ev (is_close i) (x_ev (close_all st)) = count_ev (is_open i) (x_ev (close_all st)).
+Proof.
+  intros H i. unfold close_all. simpl. rewrite !count_ev_app, !count_ev_rev.
+  rewrite count_close_map, count_open_closes, (H i). lia.
+Qed.
+
+Lemma close_all_bal st : xbal st -> xbal (close_all st).
+Proof.
+  intros H i. rewrite <- (close_all_closed st H i). unfold close_all. simpl. lia.
+Qed.
+
+(* cfdm.read with external files, with fix3-2: whatever files the body opens or scans, whether a
+   scan succeeds (useful or not), fails before or after opening its file, and whether the
+   body then returns or raises: every dataset is closed as often as it was opened *)
+Lemma xread_closed steps e i :
+  count_ev (is_close i) (xread_trace VFixed steps e) = count_ev (is_open i) (xread_trace VFixed steps e).
+Proof.
+  unfold xread_trace.
+  assert (H0 : xbal (mkX [0%nat] [EvOpen 0%nat])).
+  { intros j. cbn [x_ev x_cur]. rewrite !count_ev_cons.
+    change (count_ev (is_open j) []) with 0%nat. change (count_ev (is_close j) []) with 0%nat.
+    cbn [is_open is_close count_occ].
+    destruct (Nat.eq_dec 0 j) as [<-|N]; [reflexivity|].
+    destruct (Nat.eqb_spec j 0); [congruence|reflexivity]. }
+  pose proof (xrun_fixed_bal steps _ H0) as H.
+  destruct (xrun VFixed steps (mkX [0%nat] [EvOpen 0%nat])) as [st raised]. simpl in H.
+  rewrite !count_ev_rev.
+  destruct raised; [|destruct e]; apply close_all_closed; try assumption.
+  apply close_all_bal, H.
+Qed.
+
+(* the seeded change A: a scanned file that holds none of the wanted variables is never closed;
+   and the code before fix3-2: a scan that raises leaves the parent dataset open *)
+Lemma xread_seedA_refuted :
+  count_ev (is_open 1%nat) (xread_trace VSeedA [XScan 1%nat (ScanOk false)] Returns) = 1%nat /\
+  count_ev (is_close 1%nat) (xread_trace VSeedA [XScan 1%nat (ScanOk false)] Returns) = 0%nat.
+Proof. split; vm_compute; reflexivity. Qed.
+
+Lemma xread_head_refuted :
+  count_ev (is_open 0%nat) (xread_trace VHead [XScan 1%nat ScanFailBefore] Raises) = 1%nat /\
+  count_ev (is_close 0%nat) (xread_trace VHead [XScan 1%nat ScanFailBefore] Raises) = 0%nat /\
+  xread_trace VFixed [XScan 1%nat ScanFailBefore] Raises = [EvOpen 0%nat; EvClose 0%nat] /\
+  xread_trace VFixed [XScan 1%nat ScanFailAfter] Raises = [EvOpen 0%nat; EvOpen 1%nat; EvClose 1%nat; EvClose 0%nat].
+Proof. splits; vm_compute; reflexivity. Qed.
+
+(* ------------------------------------------------------------------ references in a grouped dataset *)
+Lemma resolve_head_ok m toks :
+  (forall t, In t toks -> assoc t m <> None) -> resolve_head m toks = ROk (resolve m toks).
+Proof.
+  unfold resolve_head, resolve. induction toks as [|t r IH]; intros H; simpl; [reflexivity|].
+  destruct (assoc t m) as [x|] eqn:E; [|exfalso; exact (H t (or_introl eq_refl) E)].
+  simpl. rewrite IH by (intros u Hu; apply H; right; exact Hu). reflexivity.
+Qed.
+
+(* with fix3-5 a reference that the flattener could not resolve stays in the list as it
+   is - a name that is not in the file, dealt with like any missing variable *)
+Lemma resolve_keeps m toks t : In t toks -> assoc t m = None -> In t (resolve m toks).
+Proof.
+  unfold resolve. intros Hin E. apply in_map_iff. exists t. rewrite E. auto.
+Qed.
+
+Lemma resolve_head_refuted :
+  resolve_head [("lat", "/g/lat")] ["lat"; "REF_NOT_FOUND_nope"] = RErr KeyErr /\
+  resolve [("lat", "/g/lat")] ["lat"; "REF_NOT_FOUND_nope"] = ["/g/lat"; "REF_NOT_FOUND_nope"].
+Proof. split; vm_compute; reflexivity. Qed.
+
+(* ------------------------------------------------------------------ the report bookkeeping *)
+Definition bk_ok (reports comp : list (string * bmsg)) : Prop :=
+  (forall p q m, In (p, (q, m, false)) reports -> p = q) /\
+  (forall c q m oc, In (c, (q, m, oc)) comp -> oc = true).
+
+(* with fix3-7 a message about the relation between a variable and ONE parent (of_component =
+   false) is never found in the report of another parent, whatever is emitted and copied *)
+Lemma bk_run_ok : forall evs reports comp, bk_ok reports comp ->
+  forall p q m, In (p, (q, m, false)) (bk_run false evs reports comp) -> p = q.
+Proof.
+  induction evs as [|e r IH]; intros reports comp [H1 H2] p q m; simpl. { apply H1. }
+  destruct e as [p0 c0 m0 oc0|p0 c0]; apply IH; split.
+  - intros p1 q1 m1 Hin. apply in_app_iff in Hin. destruct Hin as [Hin|[Hin|[]]]; [eauto|].
+    inversion Hin; subst. reflexivity.
+  - intros c1 q1 m1 oc1 Hin. destruct oc0; simpl in Hin; [|eauto].
+    apply in_app_iff in Hin. destruct Hin as [Hin|[Hin|[]]]; [eauto|]. inversion Hin; subst. reflexivity.
+  - intros p1 q1 m1 Hin. apply in_app_iff in Hin. destruct Hin as [Hin|Hin]; [eauto|].
+    apply in_map_iff in Hin. destruct Hin as [[c1 [[q2 m2] oc2]] [Heq Hf]]. simpl in Heq. inversion Heq; subst.
+    apply filter_In in Hf. destruct Hf as [Hf _]. specialize (H2 _ _ _ _ Hf). discriminate.
+  - exact H2.
+Qed.
+
+(* before fix3-7: the message emitted while a candidate field for `lev` was built reaches `ta` *)
+Lemma bk_head_refuted :
+  In ("ta", ("lev", 7%nat, false)) (bk_run true [Emit "lev" "orog" 7%nat false; Copy "ta" "orog"] [] []) /\
+  bk_run false [Emit "lev" "orog" 7%nat false; Copy "ta" "orog"] [] [] = [("lev", ("lev", 7%nat, false))].
+Proof. split; vm_compute; auto. Qed.
+
+(* ------------------------------------------------------------------ the cache of auxiliary coordinates *)
+Lemma option_eqb_string_eq a b : option_eqb String.eqb a b = true -> a = b.
+Proof.
+  destruct a, b; simpl; try discriminate; try reflexivity. intros H. apply String.eqb_eq in H. congruence.
+Qed.
+
+(* with fix3-8 every parent gets the construct made with ITS geometry container *)
+Lemma aux_cache_by_geometry : forall reqs cache,
+  aux_cache_run true reqs cache = map (fun r => (snd r, fst r)) reqs.
+Proof.
+  induction reqs as [|[geo n] r IH]; intros cache; simpl; [reflexivity|].
+  destruct (assoc n cache) as [g0|]; [|rewrite IH; reflexivity].
+  destruct (option_eqb String.eqb g0 geo) eqn:E; simpl; rewrite IH; [|reflexivity].
+  apply option_eqb_string_eq in E. subst. reflexivity.
+Qed.
+
+Lemma aux_cache_head_refuted :
+  aux_cache_run false [(None, "lat"); (Some "geometry1", "lat")] [] = [("lat", None); ("lat", None)] /\
+  aux_cache_run true [(None, "lat"); (Some "geometry1", "lat")] [] = [("lat", None); ("lat", Some "geometry1")].
+Proof. split; vm_compute; reflexivity. Qed.
+
+(* ------------------------------------------------------------------ char variables with foreign dimensions *)
+(* before fix3-3 a char variable whose LEADING dimension is foreign passed the subset test
+   (its string-length dimension is removed by _ncdimensions, and the test removed one more);
+   the reader then raised ValueError when it inserted the construct *)
+Lemma dims_are_subset_head_refuted :
+  let ds := mkAds [mkVar "label" ["zz"; "strlen"] true false []; mkVar "q" ["lat"] false false []] [] in
+  ncdims ds "label" = ROk ["zz"] /\
+  dims_are_subset_head ds "label" ["zz"] ["lat"] = ROk true /\
+  dims_are_subset ds "label" ["zz"] ["lat"] = ROk false.
+Proof. cbv zeta. splits; vm_compute; reflexivity. Qed.
+
+(* compression by gathering in the whole read: the valid list variable expands the dimension;
+   a missing dimension in the first position leaves the variable uncompressed, with the list
+   variable as its dimension coordinate; in neither case is the list variable a field *)
+Definition ds_gathered (c : string) : ads :=
+  mkAds3 [ mkVar "lat" ["lat"] false false []; mkVar "lon" ["lon"] false false [];
+           mkVar "landpoint" ["landpoint"] false false [("compress", c)];
+           mkVar "gq" ["landpoint"] false false [] ] [] ["lat"; "lon"; "landpoint"].
+
+Lemma gathered_example :
+  option_map f_cons (field_of_name (read_skel (ds_gathered "lat lon")) "gq") =
+    Some [mkCons CDim "lat" None; mkCons CDim "lon" None] /\
+  option_map f_cons (field_of_name (read_skel (ds_gathered "nope lon")) "gq") =
+    Some [mkCons CDim "landpoint" None] /\
+  field_of_name (read_skel (ds_gathered "lat lon")) "landpoint" = None /\
+  field_of_name (read_skel (ds_gathered "nope lon")) "landpoint" = None.
+Proof. splits; vm_compute; reflexivity. Qed.
